@@ -64,13 +64,20 @@ type scenario struct {
 	Restart int `json:"restart"` // 0 none, 1 Start(), 2 StartWithVal(x), 3 both
 	// BareTarget: the target is a never-started handle whose YieldRefs are made by a plain goroutine
 	// (a mailbox); nothing in the request/reply pairing depends on how the goroutines were launched
-	BareTarget bool      `json:"bareTarget,omitempty"`
-	Plan       vlib.Plan `json:"plan"`
+	BareTarget bool `json:"bareTarget,omitempty"`
+	// DoTarget: the target is the coroutine of a DoNotation block: its effect serves the requests with
+	// self.YieldRef; callers address the handle the block was given
+	DoTarget bool `json:"doTarget,omitempty"`
+	// Ghosts: before the callers start, a coroutine that has already FINISHED calls YieldFrom(target, x)
+	// that many times: a finished coroutine cannot yield - the call returns the zero value and the target
+	// never sees the request
+	Ghosts int       `json:"ghosts,omitempty"`
+	Plan   vlib.Plan `json:"plan"`
 }
 
 func (s scenario) String() string {
 	var sb strings.Builder
-	fmt.Fprintf(&sb, "shape=%s startWithVal=%v eager=%v restart=%d bareTarget=%v callers=", []string{"fixed", "echo", "accumulate"}[s.Shape], s.StartWithVal, s.Eager, s.Restart, s.BareTarget)
+	fmt.Fprintf(&sb, "shape=%s startWithVal=%v eager=%v restart=%d bareTarget=%v doTarget=%v ghosts=%d callers=", []string{"fixed", "echo", "accumulate"}[s.Shape], s.StartWithVal, s.Eager, s.Restart, s.BareTarget, s.DoTarget, s.Ghosts)
 	for _, c := range s.Callers {
 		fmt.Fprintf(&sb, "[%s k=%d io@%d h=%v sub=%d chain=%v recv=%d gap=%d]", []string{"cor", "do", "newAndStart", "bare"}[c.Kind], c.K, c.IOAt, c.IOHandler, c.IOSub, c.IOChain, c.DoRecv, c.Gap)
 	}
@@ -109,8 +116,14 @@ func genScenario(t *rapid.T) scenario {
 	s.Eager = rapid.Bool().Draw(t, "eager")
 	s.Restart = rapid.SampledFrom([]int{0, 0, 1, 2, 3}).Draw(t, "restart")
 	s.Plan = vlib.DrawPlan(t, corPoints, 6)
-	if rapid.IntRange(0, 5).Draw(t, "bareTarget") == 0 {
+	switch rapid.IntRange(0, 7).Draw(t, "targetKind") {
+	case 0:
 		s.BareTarget, s.StartWithVal, s.Eager, s.Restart = true, false, false, 0
+	case 1:
+		s.DoTarget, s.StartWithVal, s.Eager, s.Restart = true, false, false, 0
+	}
+	if !s.Eager {
+		s.Ghosts = rapid.SampledFrom([]int{0, 0, 1, 2}).Draw(t, "ghosts")
 	}
 	return s
 }
@@ -124,6 +137,7 @@ type result struct {
 }
 
 const startVal = 777777
+const ghostVal = 424242
 
 func runScenario(s scenario) result {
 	var res result
@@ -276,6 +290,20 @@ func runScenario(s scenario) result {
 			go targetBody()
 			return
 		}
+		if s.DoTarget {
+			ready := make(chan struct{})
+			go func() {
+				var factory fpgo.CorDef[int]
+				factory.DoNotation(func(self *fpgo.CorDef[int]) int {
+					target = self
+					close(ready)
+					targetBody()
+					return 0
+				})
+			}()
+			<-ready
+			return
+		}
 		if s.StartWithVal {
 			target.StartWithVal(startVal)
 		} else {
@@ -302,6 +330,27 @@ func runScenario(s scenario) result {
 	if !s.Eager {
 		if !startOrFail() {
 			return res
+		}
+		if s.Ghosts > 0 {
+			gone := fpgo.CorNewGenerics[int](func() {})
+			gone.Start()
+			if vlib.WaitUntil(vlib.StallBudget(), gone.IsDone) {
+				ghostDone := make(chan struct{})
+				go func() {
+					defer close(ghostDone)
+					for g := 0; g < s.Ghosts; g++ {
+						if y := gone.YieldFrom(target, ghostVal+g); y != 0 {
+							fail("C14/finished-caller", "YieldFrom called on a coroutine that has finished returned %d, want the zero value", y)
+						}
+					}
+				}()
+				select {
+				case <-ghostDone:
+				case <-time.After(vlib.StallBudget()):
+					fail("C14/finished-caller", "YieldFrom called on a coroutine that has finished does not return:\n%s", vlib.AllStacks())
+					return res
+				}
+			}
 		}
 	} else {
 		defer func() {}() // (eager: the target is started after the callers, below)
@@ -549,6 +598,7 @@ func TestRegress(t *testing.T) {
 		{Shape: shapeEcho, Callers: []callerSpec{{K: 8, IOAt: -1}, {K: 8, IOAt: 2, IOHandler: true}}, StartWithVal: true},
 		{Shape: shapeFixed, Callers: []callerSpec{{K: 7, IOAt: -1, Kind: kindBare}, {K: 7, IOAt: 3, Kind: kindBare, IOSub: 2, IOChain: true}, {K: 2, IOAt: -1}}},
 		{Shape: shapeEcho, Callers: []callerSpec{{K: 6, IOAt: -1, Kind: kindDoNotation}, {K: 3, IOAt: -1, Kind: kindBare}}, BareTarget: true},
+		{Shape: shapeFixed, Callers: []callerSpec{{K: 4, IOAt: -1}, {K: 3, IOAt: -1, Kind: kindDoNotation}}, DoTarget: true, Ghosts: 2},
 		{Shape: shapeAccumulate, Callers: []callerSpec{{K: 5, Kind: kindDoNotation, IOAt: 0}, {K: 5, IOAt: -1}, {K: 5, Kind: kindDoNotation, IOAt: -1}}},
 		{Shape: shapeFixed, Callers: []callerSpec{{K: 4, IOAt: -1}, {K: 4, IOAt: -1}, {K: 4, IOAt: -1}, {K: 4, IOAt: -1}, {K: 4, IOAt: -1}, {K: 4, IOAt: -1}, {K: 4, IOAt: -1}, {K: 4, IOAt: -1}}, StartWithVal: true},
 	}
